@@ -202,9 +202,9 @@ Proof.
 Qed.
 (** with a genuine cube root, the "equal-volume radius" of a sphere is its radius *)
 Lemma sphere_axi_lemma (cbrt : R -> R) r rot nre nim pos k nmed :
-  (forall x, cbrt x * cbrt x * cbrt x = x) ->
+  cbrt (r * (r * r)) * cbrt (r * (r * r)) * cbrt (r * (r * r)) = r * (r * r) ->
   a_axi (parse_args RO PI flR cbrt (Sphere r rot) nre nim pos k nmed) = r.
-Proof. intros H. cbn. apply cube_inj. rewrite H. ring. Qed.
+Proof. intros H. cbn. apply cube_inj. cbn in H. rewrite H. ring. Qed.
 
 (** ---------- packing ---------- *)
 Lemma nth_map_seq {A} (f : nat -> A) n i d : (i < n)%nat -> List.nth i (map f (seq 0 n)) d = f i.
